@@ -283,10 +283,94 @@ func runC14(r *h.Run) {
 			return n == "short2-mixed" || n == "shift3" || n == "shift30" || n == "shift64" || n == "bigroot-in"
 		}
 	}
-	r.Rule = "key space as C01 restricted to tries with values; encoders I8/I16/I32/I64 with values drawn from the lane alphabet {00,01,7f,80,ff}^width starting with min, max, -1, 0, 1 (the table is rotated 8 more times on sets of <= 3 keys), every run pattern, options, {fresh, loaded}; every query of Q plus all keys; oracle: GetIxx(q) = (Get(q) value, found), (0,false) when not found"
+	r.Rule = "key space as C01 restricted to tries with values; encoders I8/I16/I32/I64 with values drawn from the lane alphabet {00,01,7f,80,ff}^width starting with min, max, -1, 0, 1 (the table is rotated 8 more times on sets of <= 3 keys), every run pattern, options, {fresh, loaded}; every query of Q plus all keys; oracle: GetIxx(q) = (Get(q) value, found), (0,false) when not found; plus tries loaded from every historical layout (writer models, conformance-checked) for K(U21,2), scaffolds and sweep offsets around 64 leaves: GetI32 agrees with Get on every query (also in panicking)"
 	r.Assumptions = commonAssumptions
 	phases := buildPhases(r, p)
 	runTriePass(r, phases, oracleC14, nil)
+
+	// loaded tries also means tries loaded from the historical layouts (their
+	// values are 4-byte little-endian integers: GetI32 applies)
+	if !conformLegacy(r) {
+		return
+	}
+	sp := newSpaceCtx(r.Seed)
+	layouts := legacyLayouts()
+	scs := scaffoldSet(sp, r.Tier == "thorough", []int{2, 3}, func(n string) bool {
+		return n == "shift64" || n == "shift30" || n == "shift3" || n == "short2-mixed" || n == "bigroot-in" || n == "big2-in" || n == "lift3"
+	})
+	type lu struct {
+		keys []string
+		qs   []string
+		name string
+	}
+	r.Phase("legacy-loaded", func(emit func(u interface{}) bool) {
+		it := h.NewSubsetIter(len(sp.u2), 0, 2)
+		for idx := it.Next(); idx != nil; idx = it.Next() {
+			S := h.Pick(sp.u2, idx)
+			if !emit(lu{S, sp.q2, "subset"}) {
+				return
+			}
+			if len(idx) == 2 && (idx[0]+idx[1])%8 != 0 {
+				continue
+			}
+			for _, sc := range scs {
+				s := sc.Apply(S)
+				if !emit(lu{s.Keys, queriesFor(s, sp.q2, false, false), "scaffold:" + s.Name}) {
+					return
+				}
+			}
+		}
+		for k := 60; k <= 70; k++ {
+			s := h.ScaffoldFixed(fmt.Sprintf("sweep%d", k), h.SweepFiller(k), "\xff").Apply([]string{"", "\x0f", "\xf0\xff"})
+			if !emit(lu{s.Keys, queriesFor(s, sp.q2, false, false), "scaffold:" + s.Name}) {
+				return
+			}
+		}
+	}, func(w *h.Worker, x interface{}) {
+		u := x.(lu)
+		w.Begin(func() string { return "C14 legacy " + u.name })
+		vals := legacyVals(len(u.keys))
+		for li := range layouts {
+			l := &layouts[li]
+			stream := l.write(u.keys, vals)
+			st, err, p := loadLegacy(stream, false)
+			if err != nil || p != nil {
+				w.DontCare++ // loadability is C06's business
+				continue
+			}
+			w.Evals++
+			w.State(h.Hash64([]byte(l.Name), stream), len(u.keys) >= 2)
+			qs := append(append([]string{}, u.qs...), u.keys...)
+			for _, q := range qs {
+				var gv interface{}
+				var gfound, tfound, gpanic, tpanic bool
+				var tv int32
+				if p := h.Safely(func() { gv, gfound = st.Get(q) }); p != nil {
+					gpanic = true
+				}
+				if p := h.Safely(func() { tv, tfound = st.GetI32(q) }); p != nil {
+					tpanic = true
+				}
+				w.Trans += 2
+				bad := gpanic != tpanic || gfound != tfound
+				if !bad && gfound && !gpanic {
+					if x, ok := gv.(int32); !ok || x != tv {
+						bad = true
+					}
+				}
+				if !bad && !gfound && tv != 0 {
+					bad = true
+				}
+				if bad {
+					v := h.Viol{Sig: "typed-getter-legacy", Msg: fmt.Sprintf("%s stream: GetI32(%s) = (%d,%v, panic=%v) but Get = (%v,%v, panic=%v) | %s keys=%d", l.Name, briefQ(q), tv, tfound, tpanic, gv, gfound, gpanic, u.name, len(u.keys)),
+						Kind: "c06", Case: c06Case{Layout: l.Name, KeysHex: hexKeys(u.keys), QueriesHex: []string{fmt.Sprintf("%x", q)}}, Unit: w.Unit()}
+					w.Report(v)
+					return
+				}
+			}
+		}
+		w.Sample(map[string]interface{}{"legacy_loaded": u.name, "keys": len(u.keys), "layouts": len(layouts)})
+	})
 }
 
 // ---------- C18: Stat ----------
@@ -336,13 +420,68 @@ func oracleC18(w *h.Worker, b *h.Built, inst string, st *trie.SlimTrie, u *input
 		}
 	}
 	w.Outcome(fmt.Sprintf("levels_%d", s.LevelCnt))
+	// per-level counts against an independent source: the depth of every node in
+	// the rendering (decided by C19) gives the true number of inner and leaf
+	// nodes on each level
+	if inst == h.InstFresh && n >= 1 && len(b.Keys) <= 400 && (len(b.Keys) >= 5 || b.Opt == (h.Opt4{D: 1, I: 0, L: 0, C: 0})) {
+		var str string
+		if p := h.Safely(func() { str = st.String() }); p == nil && str != "" {
+			type cnt struct{ total, inner, leaf int32 }
+			var per []cnt
+			var stack []int
+			ok := true
+			for _, line := range strings.Split(str, "\n") {
+				lead := len(line) - len(strings.TrimLeft(line, " "))
+				for len(stack) > 0 && stack[len(stack)-1] >= lead {
+					stack = stack[:len(stack)-1]
+				}
+				depth := len(stack)
+				stack = append(stack, lead)
+				for len(per) <= depth {
+					per = append(per, cnt{})
+				}
+				m := nodeTok.FindStringIndex(line)
+				if m == nil {
+					ok = false
+					break
+				}
+				per[depth].total++
+				if strings.IndexByte(line[m[1]:], '=') >= 0 {
+					per[depth].leaf++
+				} else {
+					per[depth].inner++
+				}
+			}
+			if ok {
+				var cum cnt
+				want := []cnt{{}}
+				for _, c := range per {
+					cum.total += c.total
+					cum.inner += c.inner
+					cum.leaf += c.leaf
+					want = append(want, cum)
+				}
+				bad := len(want) != len(s.Levels)
+				for i := 0; !bad && i < len(want); i++ {
+					l := s.Levels[i]
+					if l.Total != want[i].total || l.Inner != want[i].inner || l.Leaf != want[i].leaf {
+						bad = true
+					}
+				}
+				if bad {
+					return &h.Viol{Sig: "stat-levels-vs-rendering", Msg: fmt.Sprintf("Stat().Levels = %v, but the rendering has cumulative per-level (total,inner,leaf) = %v", s.Levels, want)}
+				}
+				w.Trans++
+			}
+		}
+	}
 	return nil
 }
 
 func runC18(r *h.Run) {
 	p := defaultProfile()
 	p.needQs = false
-	r.Rule = "same space as C01 (all 16 option combinations, all instances); oracle: KeyCnt = |retained|, LevelCnt = len(Levels), every level total = inner + leaf, no count decreases, last level = (NodeCnt, inner, KeyCnt), empty => (0,0), single => (1,1), loaded instance's Stat deep-equals the fresh one; legacy-loaded KeyCnt is checked by C06"
+	r.Rule = "same space as C01 (all 16 option combinations, all instances); oracle: KeyCnt = |retained|, LevelCnt = len(Levels), every level total = inner + leaf, no count decreases, last level = (NodeCnt, inner, KeyCnt), empty => (0,0), single => (1,1), loaded instance's Stat deep-equals the fresh one; on fresh tries of 5..400 keys (smaller ones in the default mode) the level table equals the cumulative number of inner and leaf nodes per depth counted in the String() rendering (an independent code path, decided by C19); legacy-loaded KeyCnt is checked by C06"
 	r.Assumptions = commonAssumptions
 	runTriePass(r, buildPhases(r, p), oracleC18, nil)
 }
